@@ -284,6 +284,13 @@ class Gen:
     r = self.rng
     ints = self.vars_of_type(bound, 'int')
     strs = self.vars_of_type(bound, 'str')
+    if (ints or strs) and self.p('lists') and r.random() < 0.12:
+      # `in` with an already bound left side is a filter (a repeated element repeats the solution)
+      t = 'int' if (ints and (not strs or r.random() < 0.7)) else 'str'
+      self.mark('in_filter')
+      v = r.choice(ints if t == 'int' else strs)
+      others = {k: vt for k, vt in bound.items() if k != v}     # `x in [x, ...]` is (rightly) reported as circular
+      return ('in', ir.V(v), ('list', tuple(self.gen_expr(t, others, 1, False) for _ in range(r.choice([1, 2, 3])))))
     if strs and r.random() < 0.25:
       return ('cmp', r.choice(['==', '!=', '<', '>=']), ir.V(r.choice(strs)), self.gen_expr('str', bound, 1, False))
     if ints:
